@@ -1,5 +1,6 @@
 import ChessVerif.Props.C02
 import ChessVerif.Props.C02core
+import ChessVerif.Props.C02nc
 #print axioms ChessVerif.Props.C02.canEnPassant_iff
 #print axioms ChessVerif.Props.C02.make_ep_iff
 #print axioms ChessVerif.Props.C02.make_refines_rules_gen
@@ -19,3 +20,11 @@ import ChessVerif.Props.C02core
 #print axioms ChessVerif.Props.C02core.isEnPassant_agree
 #print axioms ChessVerif.Props.C02core.isCastling_agree
 #print axioms ChessVerif.Props.C02.uci_full
+#print axioms ChessVerif.Props.C02nc.make_refines_rules_nc
+#print axioms ChessVerif.Props.C02nc.make_refines_rules_legal_nc
+#print axioms ChessVerif.Props.C02nc.make_refines_rules_iff
+#print axioms ChessVerif.Props.C02nc.make_refines_rules_of_lt
+#print axioms ChessVerif.Props.C02nc.make_refines_rules_fails_at_127
+#print axioms ChessVerif.Props.C02nc.epNormal_make_nc
+#print axioms ChessVerif.Props.C02nc.run_refines_rules_nc
+#print axioms ChessVerif.Props.C02nc.pos_eq_iff
